@@ -12,6 +12,8 @@ import (
 	"strconv"
 	"strings"
 	"time"
+
+	"github.com/db47h/decimal"
 )
 
 // decDigits is a decimal digit string with a radix point position:
@@ -452,6 +454,32 @@ func textCase(c *Ctx, xo *Opnd, x *Dec, format byte, prec int) {
 	}
 }
 
+// inexactTwin returns a Decimal with x's value, sign, precision and mode whose accuracy is not Exact
+// (x ± a digit far below its precision, rounded back onto x), or nil when there is none.
+// Formatting must not consult the accuracy left by an earlier operation.
+func inexactTwin(x *Dec) *Dec {
+	if x.IsInf() || x.IsZero() {
+		return nil
+	}
+	e := x.MantExp(nil) - int(x.Prec()) - 3
+	if e < -100000 {
+		return nil
+	}
+	tiny := decimal.NewDecimal(1, e)
+	for _, sub := range []bool{false, true} {
+		z := new(Dec).SetPrec(x.Prec()).SetMode(x.Mode())
+		if sub {
+			z.Sub(x, tiny)
+		} else {
+			z.Add(x, tiny)
+		}
+		if z.Cmp(x) == 0 && z.Acc() != decimal.Exact && z.Prec() == x.Prec() && z.Mode() == x.Mode() {
+			return z
+		}
+	}
+	return nil
+}
+
 func formatLayers(tier string) []Layer {
 	thorough := tier == "thorough"
 	var layers []Layer
@@ -490,7 +518,7 @@ func formatLayers(tier string) []Layer {
 		layers = append(layers, Layer{
 			Name:   "V1-text",
 			Units:  len(base),
-			Bounds: fmt.Sprintf("x = c×10^e for c in D(%d) ∪ 23 tie/all-nines/long (multi-word, leading 5) literals ∪ 5- and 9-word mantissas of one repeated word with a zero word at every index, decimal-point positions %v, ±, plus ±0, ±Inf; x.mode in 6 modes; formats e,E,f,g,G,p,b; precisions %v; Append onto buffers that already hold digits, points, exponents == prefix + Text", k, exps, precs),
+			Bounds: fmt.Sprintf("x = c×10^e for c in D(%d) ∪ 23 tie/all-nines/long (multi-word, leading 5) literals ∪ 5- and 9-word mantissas of one repeated word with a zero word at every index, decimal-point positions %v, ±, plus ±0, ±Inf; x.mode in 6 modes; formats e,E,f,g,G,p,b; precisions %v; Append onto buffers that already hold digits, points, exponents == prefix + Text; the same value carrying accuracy Below/Above from an earlier Add/Sub prints the same text (formats e,f,g,p,b, all precisions)", k, exps, precs),
 			Run: func(c *Ctx, u int) {
 				for _, e := range exps {
 					for _, neg := range []bool{false, true} {
@@ -513,6 +541,23 @@ func formatLayers(tier string) []Layer {
 								}
 							}
 							if !c.Skip() {
+								// the same value with an inexact accuracy left by an earlier operation prints the same text
+								if xi := inexactTwin(x); xi != nil {
+									for _, f := range []byte{'e', 'f', 'g', 'p', 'b'} {
+										for _, p := range precs {
+											if (f == 'p' || f == 'b') && p != 0 {
+												continue
+											}
+											var gi string
+											pv, _ := protect(func() { gi = xi.Text(f, p) })
+											if ge := x.Text(f, p); pv != nil || gi != ge {
+												c.Fail(fmt.Sprintf("Text(%c,%d) of inexact x=%s@exp%d mode=%s acc=%s", f, p, xo.String(), xo.Exp, modeName(xo.Mode), xi.Acc()), fmt.Sprintf("got %q (panic %v), the same value with accuracy Exact prints %q", gi, pv, ge))
+											}
+										}
+									}
+								} else if xo.Form == fFinite {
+									c.Fail("inexactTwin x="+xo.String(), "harness: no inexact twin could be built")
+								}
 								a := string(x.Append([]byte("xy"), 'g', 3))
 								if a != "xy"+x.Text('g', 3) {
 									c.Fail("Append x="+xo.String(), fmt.Sprintf("Append = %q, Text = %q", a, x.Text('g', 3)))
